@@ -1553,3 +1553,53 @@ Proof.
   exists pre. split; [exact E3|]. split; [exact E4|].
   intros Hn Hi. rewrite E4. apply timeout_view_spec; assumption.
 Qed.
+
+(* ------------------------------------------------------------------ *)
+(* 499 or 503: decided by the FIRST Done event, whatever follows        *)
+
+Fixpoint first_done (sched : list ev) : option kind :=
+  match sched with
+  | [] => None
+  | ED k :: _ => Some k
+  | _ :: r => first_done r
+  end.
+
+Lemma stepT_dk s e :
+  dk (stepT s e) = match e with ED k => match dk s with Some k' => Some k' | None => Some k end | _ => dk s end.
+Proof.
+  destruct e as [|k|b].
+  - apply (stepT_H_frame s).
+  - unfold stepT, step, d_step. destruct (dk s) eqn:E; [exact E|reflexivity].
+  - unfold stepT, step, s_step. destruct (sst s); try reflexivity.
+    destruct b; [destruct (hst s)|destruct (hst s)|destruct (dk s) eqn:E]; cbn; rewrite ?E; reflexivity.
+Qed.
+
+Lemma run_dk : forall sched s,
+  dk (run s sched) = match dk s with Some k => Some k | None => first_done sched end.
+Proof.
+  induction sched as [|e sched IH]; intros s; cbn [run fold_left first_done].
+  - destruct (dk s); reflexivity.
+  - change (fold_left stepT sched (stepT s e)) with (run (stepT s e) sched).
+    rewrite IH, stepT_dk. destruct e as [|k|b]; destruct (dk s); reflexivity.
+Qed.
+
+Lemma timeout_kind_lemma fl h0 script sched k :
+  sst (run (init fl h0 script) sched) = STimeoutRet k ->
+  first_done sched = Some k /\
+  rres (rw (run (init fl h0 script) sched)) <> None /\
+  (fl = false \/ has_flush script = false ->
+   rres (rw (run (init fl h0 script) sched)) = Some (timeout_code k, h0)).
+Proof.
+  intros Hs.
+  pose proof (run_dk sched (init fl h0 script)) as D. cbn [dk init] in D.
+  pose proof (all_or_nothing_flush_lemma fl h0 script sched) as O.
+  destruct O as [E|ex E|k' pre E1 E2 E3 E4|p E]; try congruence.
+  assert (k' = k) by congruence. subst k'.
+  split; [congruence|]. split.
+  - rewrite E4. unfold timeout_write, rw_write. cbn.
+    destruct (rres (committed fl h0 pre)) eqn:Er.
+    + rewrite (rw_wh_frozen _ _ _ Er). rewrite (rw_wh_frozen _ _ _ Er). congruence.
+    + rewrite (rw_wh_final _ _ (is_info_timeout_code k) Er). cbn. discriminate.
+  - intros Hf. destruct (all_or_nothing_lemma fl h0 script sched Hf) as [F|ex F|k' F1 F2 F3|p F]; try congruence.
+    assert (k' = k) by congruence. subst k'. rewrite F3. reflexivity.
+Qed.
